@@ -1,3 +1,849 @@
-use vh::runner::Ctx;
+//! C05 — threads: closure runs once; join awaits exit and returns its value, None on panic; spawn errors.
+//! C06 — threads: stack, TLS block and join state released exactly once in every exit/drop order.
+//!
+//! One driver for both (ctx.prop decides). Engine E4 (no-libc probe `probe-threads`, six link modes) + E5
+//! (strace: per-thread syscall log and fault injection into the hand-written `clone` and the stack `mmap`).
+//! A case = one probe process fed 1..n generated batches of thread specs (+ optionally one injected fault).
+use std::cell::{Cell, RefCell};
+use std::collections::{BTreeMap, BTreeSet};
+use std::time::Duration;
 
-pub fn run(_ctx: &Ctx) {}
+use proptest::prelude::*;
+use serde::{Deserialize, Serialize};
+use vh::runner::{CaseReport, CaseResult, Ctx, Failure};
+
+use crate::probe::{Exit, Injection, Probe, Rec, MODES};
+use crate::strace;
+use crate::wire::*;
+
+#[derive(Debug, Clone, Serialize, Deserialize, PartialEq, Eq, Hash)]
+pub struct Fault {
+    /// "stack-mmap" (the 2 MiB PROT_READ|PROT_WRITE MAP_PRIVATE|MAP_ANONYMOUS mmap of spawn) or "clone"
+    pub target: String,
+    /// 0-based index among the calls of that kind made by the probe run (= index of the spawn call over all batches)
+    pub index: u32,
+    /// "ENOMEM" | "EAGAIN"
+    pub errno: String,
+}
+
+#[derive(Debug, Clone, Serialize, Deserialize, PartialEq, Eq, Hash)]
+pub struct Case {
+    /// link mode of the probe: dyn|static|pie x debug|release
+    pub build: String,
+    pub strace: bool,
+    pub fault: Option<Fault>,
+    pub batches: Vec<Batch>,
+}
+
+pub const SIG_CLONE: &str = "spawn|clone failed|join never returns";
+pub const SIG_RESULT_LEAK: &str = "drop handle|result value never dropped|Vec<u8> buffer stays allocated";
+
+// ------------------------------------------------------------------------------------------------
+// environment shared by the sub-checks of one worker
+// ------------------------------------------------------------------------------------------------
+
+struct Env<'a> {
+    ctx: &'a Ctx,
+    c06: bool,
+    /// number of mmap calls the main thread of a build makes before its first batch (for `when=K`)
+    startup_mmaps: RefCell<BTreeMap<String, Option<u32>>>,
+    threads: Cell<u64>,
+    batches: Cell<u64>,
+    probe_runs: Cell<u64>,
+    strace_runs: Cell<u64>,
+    max_alive: Cell<u64>,
+}
+
+impl<'a> Env<'a> {
+    fn known(&self, sig: &str) -> bool {
+        self.ctx.known.iter().any(|k| sig == k.signature || (k.signature.ends_with('*') && sig.starts_with(&k.signature[..k.signature.len() - 1])))
+    }
+
+    fn startup_mmaps(&self, build: &str) -> Option<u32> {
+        if let Some(v) = self.startup_mmaps.borrow().get(build) {
+            return *v;
+        }
+        let v = (|| {
+            let mut p = Probe::start(build, true, None).ok()?;
+            p.close_stdin();
+            if p.wait_exit() != Exit::Code(0) {
+                return None;
+            }
+            let log = strace::parse(&p.strace_text()?);
+            let evs = log.per_tid.get(&log.first_tid)?;
+            Some(evs.iter().filter(|e| e.name == "mmap").count() as u32)
+        })();
+        self.startup_mmaps.borrow_mut().insert(build.to_string(), v);
+        v
+    }
+}
+
+// ------------------------------------------------------------------------------------------------
+// running a case
+// ------------------------------------------------------------------------------------------------
+
+enum End {
+    Clean,
+    Died { exit: Exit, stderr: String, batch: usize },
+    Deadlock { desc: String, batch: usize },
+    Timeout,
+    Infra(String),
+}
+
+struct Outcome {
+    hello: Hello,
+    reports: Vec<BatchReport>,
+    end: End,
+    log: Option<strace::Log>,
+}
+
+fn errno_name(s: &str) -> &'static str {
+    match s {
+        "EAGAIN" => "EAGAIN",
+        _ => "ENOMEM",
+    }
+}
+
+fn execute(env: &Env, case: &Case) -> Outcome {
+    let mut inj = None;
+    if let Some(f) = &case.fault {
+        let when = if f.target == "clone" {
+            Some(f.index + 1)
+        } else {
+            env.startup_mmaps(&case.build).map(|s| s + f.index + 1)
+        };
+        match when {
+            Some(w) => inj = Some(Injection { syscall: if f.target == "clone" { "clone" } else { "mmap" }, errno: errno_name(&f.errno), when: w }),
+            None => return Outcome { hello: Hello::default(), reports: vec![], end: End::Infra("dry strace run failed".into()), log: None },
+        }
+    }
+    let mut p = match Probe::start(&case.build, case.strace, inj.as_ref()) {
+        Ok(p) => p,
+        Err(e) => return Outcome { hello: Hello::default(), reports: vec![], end: End::Infra(e), log: None },
+    };
+    env.probe_runs.set(env.probe_runs.get() + 1);
+    if p.strace_log.is_some() {
+        env.strace_runs.set(env.strace_runs.get() + 1);
+    }
+    let hello = p.hello.clone();
+    let mut reports = Vec::new();
+    let mut end = End::Clean;
+    for (bi, b) in case.batches.iter().enumerate() {
+        if b.specs.is_empty() || b.specs.len() > 64 {
+            end = End::Infra("batch size outside 1..=64".into());
+            break;
+        }
+        vh::runner::journal_flush();
+        if !p.send(&encode_batch(b)) {
+            let exit = p.wait_exit();
+            end = End::Died { exit, stderr: p.stderr_text(), batch: bi };
+            break;
+        }
+        match p.read_record(Duration::from_secs(60)) {
+            Rec::Data(d) => match parse_report(&d) {
+                Some(r) if r.n == b.specs.len() => reports.push(r),
+                _ => {
+                    end = End::Infra("malformed batch report".into());
+                    break;
+                }
+            },
+            Rec::Eof => {
+                let exit = p.wait_exit();
+                end = End::Died { exit, stderr: p.stderr_text(), batch: bi };
+                break;
+            }
+            Rec::Deadlock(desc) => {
+                p.kill();
+                end = End::Deadlock { desc, batch: bi };
+                break;
+            }
+            Rec::Timeout => {
+                p.kill();
+                end = End::Timeout;
+                break;
+            }
+        }
+    }
+    if matches!(end, End::Clean) {
+        p.close_stdin();
+        let exit = p.wait_exit();
+        if exit != Exit::Code(0) {
+            end = End::Died { exit, stderr: p.stderr_text(), batch: case.batches.len() };
+        }
+    }
+    let log = p.strace_text().map(|t| strace::parse(&t));
+    Outcome { hello, reports, end, log }
+}
+
+fn f(sig: impl Into<String>, what: String) -> Failure {
+    Failure::new(sig, what)
+}
+
+/// What the strace log says about the injected call. Ok(None): nothing was injected (index beyond the calls made).
+/// Err: the injection hit something else than intended (then the run is not judged).
+fn injected_call(log: &strace::Log, fault: &Fault) -> Result<Option<u32>, String> {
+    let mut hits = Vec::new();
+    for (tid, evs) in &log.per_tid {
+        let mut stack_mmaps = 0u32;
+        let mut clones = 0u32;
+        for e in evs {
+            let is_stack = e.name == "mmap" && e.pos_num(1) == Some(strace::STACK_SZ);
+            if e.injected() {
+                let ord = if e.name == "mmap" { stack_mmaps } else { clones };
+                hits.push((*tid, e.name.clone(), is_stack, ord));
+            }
+            if is_stack {
+                stack_mmaps += 1;
+            }
+            if e.name == "clone" {
+                clones += 1;
+            }
+        }
+    }
+    if hits.is_empty() {
+        return Ok(None);
+    }
+    if hits.len() > 1 {
+        return Err(format!("{} calls injected", hits.len()));
+    }
+    let (tid, name, is_stack, ord) = hits.remove(0);
+    if tid != log.first_tid {
+        return Err("injection hit a thread other than main".into());
+    }
+    let ok = if fault.target == "clone" { name == "clone" } else { name == "mmap" && is_stack };
+    if !ok {
+        return Err(format!("injection hit {name} (not a {})", fault.target));
+    }
+    if ord != fault.index {
+        return Err(format!("injection hit {} #{ord}, wanted #{}", fault.target, fault.index));
+    }
+    Ok(Some(ord))
+}
+
+// ------------------------------------------------------------------------------------------------
+// oracles
+// ------------------------------------------------------------------------------------------------
+
+fn spec_text(s: &Spec) -> String {
+    format!("{} {} {}", TY_NAMES[s.ty.min(8) as usize], if s.panic { "panic" } else { "return" }, DISP_NAMES[s.disp.min(4) as usize])
+}
+
+/// Outcome-independent part: crash / deadlock / infrastructure. Returns false when the reports must not be judged.
+fn judge_end(env: &Env, case: &Case, out: &Outcome, injected: Option<u32>, fails: &mut Vec<Failure>, rep: &mut CaseReport) -> bool {
+    match &out.end {
+        End::Clean => true,
+        End::Infra(e) => {
+            eprintln!("[{}] infrastructure: {e}", env.ctx.prop);
+            env.ctx.inconclusive();
+            rep.class("inconclusive-infrastructure");
+            false
+        }
+        End::Timeout => {
+            env.ctx.inconclusive();
+            rep.class("inconclusive-time-limit");
+            false
+        }
+        End::Deadlock { desc, batch } => {
+            if injected.is_some() && case.fault.as_ref().map(|x| x.target == "clone").unwrap_or(false) {
+                let fl = case.fault.as_ref().unwrap();
+                fails.push(f(SIG_CLONE, format!("clone #{} made to fail with {} (strace injection): spawn returned Ok(handle) and the probe never came back from batch {batch}: {desc} -- definitive deadlock (no thread exists that could clear the exit futex); expected: spawn returns Err (tiny-std/src/thread/spawn.rs:345-359 ignores __clone's return value)", fl.index, fl.errno)));
+            } else {
+                fails.push(f("batch|deadlock|every thread parked in an untimed futex wait", format!("batch {batch} ({} threads) never finished: {desc}", case.batches.get(*batch).map(|b| b.specs.len()).unwrap_or(0))));
+            }
+            true
+        }
+        End::Died { exit, stderr, batch } => {
+            match exit {
+                Exit::Signal(s) => fails.push(f(format!("batch|probe crashed|signal {s}"), format!("probe ({}) killed by signal {s} in batch {batch}; stderr: {stderr}", case.build))),
+                Exit::Code(1) => fails.push(f("batch|probe aborted|main thread panicked", format!("probe ({}) exited 1 in batch {batch}; stderr: {stderr}", case.build))),
+                other => {
+                    eprintln!("[{}] probe ended with {other:?} in batch {batch}: {stderr}", env.ctx.prop);
+                    env.ctx.inconclusive();
+                    rep.class("inconclusive-infrastructure");
+                    return false;
+                }
+            }
+            true
+        }
+    }
+}
+
+fn judge_c05(env: &Env, case: &Case, out: &Outcome, injected: Option<u32>, fails: &mut Vec<Failure>, rep: &mut CaseReport) {
+    let mut spawn_no = 0u32; // index of the spawn call over the whole run
+    let joined_tidptrs = RefCell::new(Vec::<(u32, bool)>::new());
+    for (bi, (b, r)) in case.batches.iter().zip(out.reports.iter()).enumerate() {
+        if !r.drained {
+            env.ctx.inconclusive();
+            rep.class("inconclusive-threads-never-drained");
+            return;
+        }
+        let mut nonunit_joined = false;
+        for (i, (s, sr)) in b.specs.iter().zip(r.specs.iter()).enumerate() {
+            let faulted = injected == Some(spawn_no);
+            spawn_no += 1;
+            let ctxt = format!("batch {bi} spec {i} ({}) on {}", spec_text(s), case.build);
+            if faulted {
+                let fl = case.fault.as_ref().unwrap();
+                if sr.spawn_errno != 0 {
+                    rep.class(if fl.target == "clone" { "clone-failure-spawn-err" } else { "stack-mmap-failure-spawn-err" });
+                    if sr.run != 0 {
+                        fails.push(f("spawn|returned Err but the closure ran|injected failure", format!("{ctxt}: spawn returned Err({}) under injected {} failure, run counter {}", sr.spawn_errno, fl.target, sr.run)));
+                    }
+                } else {
+                    rep.class("injected-failure-spawn-ok-join-returned");
+                    if sr.run > 1 {
+                        fails.push(f("spawn|closure ran more than once|injected failure", format!("{ctxt}: run counter {}", sr.run)));
+                    }
+                }
+                continue;
+            }
+            if sr.spawn_errno != 0 {
+                // no fault injected for this spawn: the environment refused (e.g. real ENOMEM) - not judged
+                env.ctx.inconclusive();
+                rep.class("inconclusive-spawn-failed-without-injection");
+                continue;
+            }
+            if sr.run != 1 {
+                fails.push(f(format!("spawn|closure ran {} times|{}", sr.run, if s.joined() { "joined" } else { "handle dropped" }), format!("{ctxt}: run counter {} after all threads of the batch were gone", sr.run)));
+                continue;
+            }
+            let want_buf = expected_buf(s.tag, s.buflen as usize);
+            if s.joined() {
+                let (wh, wl) = expected_value(s.ty, s.tag);
+                match (sr.join_class, s.panic) {
+                    (1, true) => rep.class("panic-joined-none"),
+                    (2, false) => {
+                        if sr.vhash != wh || sr.vlen != wl {
+                            fails.push(f(format!("join|Some(wrong value)|{}", TY_NAMES[s.ty.min(8) as usize]), format!("{ctxt}: join returned Some(v) with {} bytes hashing to {:#x}, the closure returned {} bytes hashing to {:#x}", sr.vlen, sr.vhash, wl, wh)));
+                        }
+                        rep.class_if(s.ty == 6 || s.ty == 7, "over-aligned-result");
+                        rep.class_if(s.ty == 0, "zero-sized-result");
+                        rep.class_if(s.ty == 5, "4KiB-result");
+                        rep.class_if(s.ty == TY_VEC, "heap-owning-result");
+                        if s.ty != 0 {
+                            nonunit_joined = true;
+                        }
+                    }
+                    (1, false) => fails.push(f(format!("join|None although the closure returned|{}", TY_NAMES[s.ty.min(8) as usize]), format!("{ctxt}: join returned None, the closure does not panic"))),
+                    (2, true) => fails.push(f("join|Some although the closure panicked|", format!("{ctxt}: join returned Some, the closure panics"))),
+                    (c, _) => fails.push(f("join|no result reported|", format!("{ctxt}: join class {c}"))),
+                }
+                if sr.buf_join != want_buf {
+                    fails.push(f(format!("join|memory effects not visible after join|{}", if s.panic { "panicked" } else { "returned" }), format!("{ctxt}: the {} byte buffer written by the closure hashed to {:#x} right after join returned, expected {:#x}", s.buflen, sr.buf_join, want_buf)));
+                }
+                joined_tidptrs.borrow_mut().push((sr.tid, true));
+            } else {
+                rep.class("handle-dropped");
+                if sr.buf_drain != want_buf {
+                    fails.push(f("spawn|closure effects missing after the thread was gone|handle dropped", format!("{ctxt}: buffer hashed to {:#x}, expected {:#x}", sr.buf_drain, want_buf)));
+                }
+            }
+            rep.class_if(matches!(s.child_delay, Delay::Sleep(_)) && s.joined(), "child-sleeps-then-joined");
+        }
+        env.max_alive.set(env.max_alive.get().max(r.max_alive as u64));
+        rep.class_if(r.max_alive >= 2, "two-or-more-threads-live");
+        rep.class_if(r.max_alive >= 16, "sixteen-or-more-threads-live");
+        rep.nontrivial_if(r.max_alive >= 2 && nonunit_joined);
+    }
+    // classes that need the log: did the joining side actually enter the futex wait?
+    if let (Some(log), End::Clean) = (&out.log, &out.end) {
+        let th = strace::threads(log);
+        let main = log.per_tid.get(&log.first_tid);
+        let waited: BTreeSet<u64> = main.map(|evs| evs.iter().filter(|e| e.name == "futex" && e.pos(1).map(|p| p.trim().starts_with("FUTEX_WAIT")).unwrap_or(false)).filter_map(|e| e.pos_num(0)).collect()).unwrap_or_default();
+        for (tid, _) in joined_tidptrs.borrow().iter() {
+            if let Some(c) = th.cloned.iter().find(|c| c.tid == *tid) {
+                if waited.contains(&c.tidptr) {
+                    rep.class("join-before-finish(futex wait entered)");
+                } else {
+                    rep.class("join-after-finish(no futex wait)");
+                }
+            }
+        }
+    }
+}
+
+fn judge_c06(env: &Env, case: &Case, out: &Outcome, fails: &mut Vec<Failure>, late: &mut Vec<Failure>, rep: &mut CaseReport) {
+    let base = &out.hello;
+    // tid -> (batch, spec index)
+    let mut by_tid: BTreeMap<u32, (usize, usize)> = BTreeMap::new();
+    for (bi, (b, r)) in case.batches.iter().zip(out.reports.iter()).enumerate() {
+        if !r.drained {
+            env.ctx.inconclusive();
+            rep.class("inconclusive-threads-never-drained");
+            return;
+        }
+        if r.log_overflow != 0 || r.table_overflow != 0 || r.null_allocs != 0 || r.alloc_dup_live != 0 {
+            // bookkeeping capacity / the allocator itself (C03's subject): not judged here
+            env.ctx.inconclusive();
+            rep.class("inconclusive-allocator-bookkeeping");
+            return;
+        }
+        let on = format!("batch {bi} ({} threads) on {}", b.specs.len(), case.build);
+        // (2) counting allocator flags
+        if r.double_free != 0 {
+            fails.push(f("batch|double free|counting allocator", format!("{on}: {} deallocations of an already freed block", r.double_free)));
+        }
+        if r.nonlive_free != 0 {
+            fails.push(f("batch|free of a non-live pointer|counting allocator", format!("{on}: {} deallocations of pointers that are not live allocations", r.nonlive_free)));
+        }
+        if r.layout_mismatch != 0 {
+            let d = r.log.iter().find(|l| l.mismatch != 0).map(|l| format!("allocated ({}, align {}) freed as ({}, align {})", l.size, l.align, l.d_size, l.d_align)).unwrap_or_default();
+            fails.push(f("batch|dealloc layout differs from alloc layout|counting allocator", format!("{on}: {} mismatching deallocations; {d}", r.layout_mismatch)));
+        }
+        if r.old_freed != 0 {
+            fails.push(f("batch|block of the baseline freed during the batch|counting allocator", format!("{on}: {} blocks that were live before the batch were freed during it", r.old_freed)));
+        }
+        // live set after the batch == baseline + allowed leftovers
+        let mut leftover_of_spec: BTreeMap<usize, Vec<&LogRec>> = BTreeMap::new();
+        let mut result_leaks = Vec::new();
+        let tid_of: BTreeMap<u32, usize> = r.specs.iter().enumerate().filter(|(_, s)| s.tid != 0).map(|(i, s)| (s.tid, i)).collect();
+        let mut nleft = 0u64;
+        for l in r.log.iter().filter(|l| l.free_tid == 0) {
+            nleft += 1;
+            if l.spec != 0 {
+                leftover_of_spec.entry(l.spec as usize - 1).or_default().push(l);
+            } else if let Some(&i) = tid_of.get(&l.alloc_tid) {
+                let s = &b.specs[i];
+                if s.ty == TY_VEC && !s.panic && !s.joined() && l.align == 1 && l.size as usize == value_len(s.ty, s.tag) {
+                    result_leaks.push((i, l.size));
+                } else {
+                    fails.push(f("batch|heap block leaked|allocated by a spawned thread", format!("{on}: {} bytes (align {}) allocated by the thread of spec {i} ({}) are still live after every thread is gone", l.size, l.align, spec_text(s))));
+                }
+            } else {
+                fails.push(f("batch|heap block leaked|allocated outside spawn", format!("{on}: {} bytes (align {}) allocated by tid {} still live after the batch", l.size, l.align, l.alloc_tid)));
+            }
+        }
+        for (i, ls) in &leftover_of_spec {
+            let s = &b.specs[*i];
+            let sr = &r.specs[*i];
+            if sr.spawn_errno != 0 {
+                continue; // failed creation: outside this property's quantifier
+            }
+            let sizes: Vec<u64> = ls.iter().map(|l| l.size).collect();
+            if !s.panic {
+                fails.push(f(format!("thread exit|block allocated by spawn never freed|{} {}", if s.panic { "panic" } else { "return" }, DISP_NAMES[s.disp.min(4) as usize]), format!("{on}: spec {i} ({}): blocks of sizes {sizes:?} allocated inside its spawn call are still live after the thread is gone (thread-local block is 40 bytes, join state >= 32 bytes)", spec_text(s))));
+            } else if ls.len() > 1 || ls[0].size > sr.closure_size as u64 + 16 {
+                fails.push(f(format!("thread exit|panicked thread left more than its closure|{}", DISP_NAMES[s.disp.min(4) as usize]), format!("{on}: spec {i} ({}): live blocks of sizes {sizes:?} from its spawn call; allowed: one block <= {} bytes (the closure)", spec_text(s), sr.closure_size + 16)));
+            } else {
+                rep.class("panicked-thread-left-its-closure");
+            }
+        }
+        if r.live_count_after != r.live_count_before + nleft {
+            fails.push(f("batch|live allocation count inconsistent with the batch log|counting allocator", format!("{on}: live {} -> {}, log shows {nleft} blocks of this batch still live", r.live_count_before, r.live_count_after)));
+        }
+        for (i, sz) in result_leaks {
+            let s = &b.specs[i];
+            let fl = f(SIG_RESULT_LEAK, format!("{on}: spec {i} ({}): the thread returned a Vec<u8> of {sz} bytes, the handle was dropped instead of joined, and the vector's buffer is still allocated after the thread and the handle are gone (JoinHandle::drop / the thread epilogue free the join state without dropping the value in it: tiny-std/src/thread/spawn.rs:46-63, 285-299): heap usage does not return to its baseline", spec_text(s)));
+            if env.known(SIG_RESULT_LEAK) && !(case.batches.len() == 1 && b.specs.len() == 1) {
+                rep.class("known:result-value-never-dropped(tolerated)");
+            } else {
+                late.push(fl);
+            }
+        }
+        // (4) mapped memory back at the baseline
+        for (i, sr) in r.specs.iter().enumerate() {
+            if sr.canary == 2 {
+                fails.push(f(format!("thread exit|stack still mapped after the thread is gone|{}", if b.specs[i].panic { "panic" } else { "return" }), format!("{on}: spec {i} ({}): the word the thread wrote on its own stack at {:#x} is still readable with its value after every thread of the batch exited (a re-mapped page would read 0)", spec_text(&b.specs[i]), sr.canary_addr)));
+            }
+        }
+        if r.vm_pages != base.vm_pages || r.total != base.total {
+            fails.push(f("batch|mapped memory not back at baseline|VmSize", format!("{on}: VmSize {} pages, /proc/self/maps total {} bytes in {} lines after the batch; baseline {} pages, {} bytes, {} lines ({:+} KiB = {:+.2} thread stacks)", r.vm_pages, r.total, r.lines, base.vm_pages, base.total, base.lines, (r.total as i64 - base.total as i64) / 1024, (r.total as i64 - base.total as i64) as f64 / strace::STACK_SZ as f64)));
+        }
+        // classes: the 2 x 4(+1) matrix and the flag race
+        let mut handle_side = false;
+        let mut thread_side = false;
+        for (i, (s, sr)) in b.specs.iter().zip(r.specs.iter()).enumerate() {
+            if sr.spawn_errno != 0 {
+                continue;
+            }
+            by_tid.insert(sr.tid, (bi, i));
+            rep.class(match (s.panic, s.disp) {
+                (false, 0) => "return x join",
+                (false, 1) => "return x drop-now",
+                (false, 2) => "return x drop-after-delay",
+                (false, 3) => "return x keep-until-end-then-join",
+                (false, _) => "return x drop-while-finishing",
+                (true, 0) => "panic x join",
+                (true, 1) => "panic x drop-now",
+                (true, 2) => "panic x drop-after-delay",
+                (true, 3) => "panic x keep-until-end-then-join",
+                (true, _) => "panic x drop-while-finishing",
+            });
+            if !s.joined() {
+                // which side freed the blocks of this spawn call: the first one is the join state
+                let mine: Vec<&LogRec> = r.log.iter().filter(|l| l.spec as usize == i + 1).collect();
+                if let Some(js) = mine.first() {
+                    if js.free_tid == sr.tid && sr.tid != 0 {
+                        thread_side = true;
+                        rep.class("flag-race: handle dropped first, thread frees the join state");
+                    } else if js.free_tid == base.main_tid {
+                        handle_side = true;
+                        rep.class("flag-race: thread finished first, handle frees the join state");
+                    }
+                }
+            }
+            rep.class_if(s.ty == 7, "align-4096-join-state");
+            rep.class_if(s.ty == TY_VEC && s.joined() && !s.panic, "heap-owning-result-joined");
+        }
+        rep.nontrivial_if(handle_side && thread_side);
+        rep.class_if(handle_side && thread_side, "both-flag-outcomes-in-one-batch");
+        rep.class_if(b.specs.len() >= 32, "batch-of-32-or-more");
+    }
+    rep.class_if(case.batches.len() >= 3, "history-of-3-or-more-batches");
+
+    // (1) + (3): the syscall log, judged per tid
+    let (Some(log), End::Clean) = (&out.log, &out.end) else { return };
+    rep.class("strace-log-judged");
+    let th = strace::threads(log);
+    let main_tid = log.first_tid;
+    let stack_ranges: Vec<(u64, u64)> = th.cloned.iter().filter_map(|c| c.stack).collect();
+    let overlaps = |a: u64, l: u64, (sa, sl): (u64, u64)| a < sa + sl && sa < a + l;
+    let mut own_unmaps = 0usize;
+    for c in &th.cloned {
+        let Some((sa, sl)) = c.stack else {
+            rep.class("inconclusive-stack-not-associated");
+            continue;
+        };
+        if !log.exited.contains_key(&c.tid) {
+            rep.class("inconclusive-thread-exit-not-logged");
+            continue;
+        }
+        let who = by_tid.get(&c.tid).map(|(bi, i)| format!("batch {bi} spec {i} ({})", spec_text(&case.batches[*bi].specs[*i]))).unwrap_or_else(|| format!("tid {}", c.tid));
+        let kind = by_tid.get(&c.tid).map(|(bi, i)| if case.batches[*bi].specs[*i].panic { "panic" } else { "return" }).unwrap_or("?");
+        let evs = log.per_tid.get(&c.tid).map(|v| v.as_slice()).unwrap_or(&[]);
+        let mut own = 0;
+        for (k, e) in evs.iter().enumerate() {
+            if e.name != "munmap" {
+                continue;
+            }
+            let (Some(a), Some(l)) = (e.pos_num(0), e.pos_num(1)) else { continue };
+            if a == sa && l == sl {
+                if e.ret_num() == Some(0) {
+                    own += 1;
+                    let last_but_one = k + 2 == evs.len() && evs[k + 1].name == "exit";
+                    rep.class_if(last_but_one, "own stack unmapped as the last call before exit");
+                }
+            } else if overlaps(a, l, (sa, sl)) {
+                fails.push(f(format!("thread exit|munmap of own stack with a wrong range|{kind}"), format!("{who} on {}: stack mapping ({sa:#x}, {sl}) but the thread called munmap({a:#x}, {l})", case.build)));
+            } else if stack_ranges.iter().any(|r| overlaps(a, l, *r) && (r.0, r.1) == (a, l)) {
+                fails.push(f(format!("thread exit|thread unmapped another thread's stack|{kind}"), format!("{who} on {}: own stack ({sa:#x}, {sl}), called munmap({a:#x}, {l}) which is the stack of another thread of the run", case.build)));
+            }
+        }
+        own_unmaps += own;
+        if own == 0 {
+            fails.push(f(format!("thread exit|stack never unmapped|{kind}"), format!("{who} on {}: thread {} exited without munmap({sa:#x}, {sl}) of its own stack (syscalls: {:?})", case.build, c.tid, evs.iter().map(|e| e.name.as_str()).collect::<Vec<_>>())));
+        } else if own > 1 {
+            fails.push(f(format!("thread exit|stack unmapped twice|{kind}"), format!("{who} on {}: thread {} called munmap({sa:#x}, {sl}) {own} times", case.build, c.tid)));
+        }
+        // (3) set_tid_address(0) <=> the thread itself freed the join state (the block holding child_tidptr)
+        let sta = evs.iter().filter(|e| e.name == "set_tid_address" && e.pos_num(0) == Some(0)).count();
+        if let Some((bi, i)) = by_tid.get(&c.tid) {
+            let r = &out.reports[*bi];
+            let js = r.log.iter().find(|l| l.spec as usize == *i + 1 && l.ptr <= c.tidptr && c.tidptr < l.ptr + l.size);
+            match js {
+                None => rep.class("inconclusive-join-state-block-not-identified"),
+                Some(js) => {
+                    let by_thread = js.free_tid == c.tid;
+                    let disp = DISP_NAMES[case.batches[*bi].specs[*i].disp.min(4) as usize];
+                    if by_thread && sta == 0 {
+                        fails.push(f(format!("thread exit|join state freed by the thread without resetting its clear-tid address|{kind}"), format!("{who} on {}: the block holding child_tidptr {:#x} was freed by thread {} itself, but the thread never called set_tid_address(0): the kernel writes 0 into freed memory at thread exit", case.build, c.tidptr, c.tid)));
+                    } else if !by_thread && sta > 0 {
+                        fails.push(f(format!("thread exit|clear-tid address reset although the handle side frees the join state|{kind} {disp}"), format!("{who} on {}: set_tid_address(0) called {sta}x by thread {}, join state freed by tid {}", case.build, c.tid, js.free_tid)));
+                    } else if sta > 1 {
+                        fails.push(f(format!("thread exit|set_tid_address(0) called more than once|{kind}"), format!("{who} on {}: {sta} calls", case.build)));
+                    } else if by_thread {
+                        rep.class("set_tid_address(0) by the thread that lost the flag race");
+                    } else {
+                        rep.class("no set_tid_address for a thread whose handle side frees");
+                    }
+                }
+            }
+        }
+    }
+    // the main thread (and any thread) must not unmap the stack of a thread it does not own
+    if let Some(evs) = log.per_tid.get(&main_tid) {
+        let mut own_maps: Vec<(u64, u64)> = Vec::new();
+        for e in evs {
+            if e.name == "mmap" {
+                if let (Some(a), Some(l)) = (e.ret_num(), e.pos_num(1)) {
+                    if a > 0 && !th.stack_maps.iter().any(|(t, sa, _)| *t == main_tid && *sa == a as u64 && l == strace::STACK_SZ) {
+                        own_maps.push((a as u64, l));
+                    }
+                }
+            } else if e.name == "munmap" {
+                let (Some(a), Some(l)) = (e.pos_num(0), e.pos_num(1)) else { continue };
+                let explained = own_maps.iter().any(|(ma, ml)| a >= *ma && a + l <= *ma + *ml);
+                if !explained && stack_ranges.iter().any(|r| overlaps(a, l, *r)) {
+                    fails.push(f("main thread|unmapped a spawned thread's stack|", format!("on {}: main thread called munmap({a:#x}, {l}) overlapping a thread stack", case.build)));
+                }
+            }
+        }
+    }
+    let exited_with_stack = th.cloned.iter().filter(|c| c.stack.is_some() && log.exited.contains_key(&c.tid)).count();
+    rep.class_if(exited_with_stack > 0 && own_unmaps == exited_with_stack, "stack munmaps == threads created");
+}
+
+fn run_case(env: &Env, case: &Case) -> CaseResult {
+    let mut rep = CaseReport::new();
+    if !MODES.contains(&case.build.as_str()) {
+        return Ok(rep);
+    }
+    let out = execute(env, case);
+    env.batches.set(env.batches.get() + out.reports.len() as u64);
+    env.threads.set(env.threads.get() + out.reports.iter().map(|r| r.specs.iter().filter(|s| s.spawn_errno == 0).count() as u64).sum::<u64>());
+    let mut fails = Vec::new();
+    let mut late = Vec::new();
+    // what did the injection hit?
+    let mut injected = None;
+    if let Some(fl) = &case.fault {
+        match out.log.as_ref().map(|l| injected_call(l, fl)) {
+            Some(Ok(Some(ord))) => {
+                injected = Some(ord);
+                rep.class(match (fl.target.as_str(), errno_name(&fl.errno)) {
+                    ("clone", "EAGAIN") => "inject clone EAGAIN",
+                    ("clone", _) => "inject clone ENOMEM",
+                    (_, _) => "inject stack-mmap ENOMEM",
+                });
+            }
+            Some(Ok(None)) => rep.class("fault-index-beyond-the-calls-made"),
+            Some(Err(e)) => {
+                eprintln!("[{}] injection not as intended: {e}", env.ctx.prop);
+                env.ctx.inconclusive();
+                rep.class("inconclusive-injection-hit-another-call");
+                return Ok(rep);
+            }
+            None => {
+                if !matches!(out.end, End::Infra(_)) {
+                    env.ctx.inconclusive();
+                    return Ok(rep);
+                }
+            }
+        }
+    }
+    let judge = judge_end(env, case, &out, injected, &mut fails, &mut rep);
+    if judge {
+        if env.c06 {
+            if case.fault.is_none() {
+                judge_c06(env, case, &out, &mut fails, &mut late, &mut rep);
+            }
+        } else {
+            judge_c05(env, case, &out, injected, &mut fails, &mut rep);
+        }
+    }
+    rep.class(match case.build.as_str() {
+        "dyn-debug" => "build dyn-debug",
+        "dyn-release" => "build dyn-release",
+        "static-debug" => "build static-debug",
+        "static-release" => "build static-release",
+        "pie-debug" => "build pie-debug",
+        _ => "build pie-release",
+    });
+    // unknown failures first, so that a recorded finding never masks a different violation
+    if let Some(x) = fails.iter().find(|x| !env.known(&x.sig)) {
+        return Err(x.clone());
+    }
+    if let Some(x) = late.iter().find(|x| !env.known(&x.sig)) {
+        return Err(x.clone());
+    }
+    if let Some(x) = fails.into_iter().chain(late).next() {
+        // every failure of this case is a recorded finding: the minimal dedicated cases report the hit, the
+        // other cases go on being counted (the search continues behind the finding)
+        let dedicated = case.batches.len() == 1 && case.batches[0].specs.len() == 1;
+        if dedicated {
+            return Err(x);
+        }
+        rep.class("known-finding(tolerated in a larger case)");
+    }
+    Ok(rep)
+}
+
+// ------------------------------------------------------------------------------------------------
+// generators
+// ------------------------------------------------------------------------------------------------
+
+fn spin_strategy() -> impl Strategy<Value = u32> {
+    // log-uniform 10^3 .. 10^6
+    (0u32..=3000).prop_map(|x| 10f64.powf(3.0 + x as f64 / 1000.0) as u32)
+}
+
+fn delay_strategy() -> impl Strategy<Value = Delay> {
+    prop_oneof![
+        3 => Just(Delay::None),
+        4 => spin_strategy().prop_map(Delay::Spin),
+        1 => (0u32..=50_000).prop_map(Delay::Sleep),
+        1 => (0u32..=2_000_000).prop_map(Delay::Sleep),
+    ]
+}
+
+fn disp_strategy(c06: bool) -> impl Strategy<Value = u8> {
+    if c06 {
+        prop_oneof![3 => Just(DISP_JOIN), 3 => Just(DISP_DROP_NOW), 3 => Just(DISP_DROP_LATER), 2 => Just(DISP_KEEP_END), 4 => Just(DISP_DROP_FINISHING)].boxed()
+    } else {
+        prop_oneof![8 => Just(DISP_JOIN), 1 => Just(DISP_DROP_NOW), 1 => Just(DISP_DROP_LATER), 4 => Just(DISP_KEEP_END), 1 => Just(DISP_DROP_FINISHING)].boxed()
+    }
+}
+
+fn spec_strategy(c06: bool) -> impl Strategy<Value = Spec> {
+    (
+        0u8..9,
+        prop::bool::weighted(0.25),
+        disp_strategy(c06),
+        prop::bool::weighted(0.3),
+        delay_strategy(),
+        delay_strategy(),
+        prop_oneof![2 => Just(0u16), 3 => 1u16..64, 1 => 64u16..4096],
+        any::<u64>(),
+        -40_000i64..200_000,
+    )
+        .prop_map(|(ty, panic, disp, inline, cd, pd, buflen, tag, jitter)| {
+            let mut s = Spec { ty, panic, disp, inline, child_delay: cd, parent_delay: pd, buflen, tag, };
+            if disp == DISP_DROP_FINISHING {
+                // "while finishing": the parent's delay equals the child's, plus or minus jitter; carried out at once
+                s.inline = true;
+                s.parent_delay = match cd {
+                    Delay::None => Delay::Spin(jitter.max(0) as u32),
+                    Delay::Spin(n) => Delay::Spin((n as i64 + jitter).max(0) as u32),
+                    Delay::Sleep(n) => Delay::Sleep((n as i64 + jitter).clamp(0, 2_000_000) as u32),
+                };
+            }
+            s
+        })
+}
+
+fn batch_strategy(c06: bool) -> impl Strategy<Value = Batch> {
+    prop_oneof![
+        3 => prop::collection::vec(spec_strategy(c06), 1..=6),
+        2 => prop::collection::vec(spec_strategy(c06), 7..=24),
+        1 => prop::collection::vec(spec_strategy(c06), 25..=64),
+    ]
+    .prop_map(|specs| Batch { specs })
+}
+
+fn case_strategy(c06: bool, builds: Vec<&'static str>, strace: bool, max_batches: usize) -> impl Strategy<Value = Case> {
+    let nb = builds.len();
+    (0..nb, prop::collection::vec(batch_strategy(c06), 1..=max_batches)).prop_map(move |(bi, batches)| Case { build: builds[bi].to_string(), strace, fault: None, batches })
+}
+
+fn fault_case_strategy(builds: Vec<&'static str>) -> impl Strategy<Value = Case> {
+    let nb = builds.len();
+    (0..nb, prop::collection::vec(prop::collection::vec(spec_strategy(false), 1..=8).prop_map(|specs| Batch { specs }), 1..=2), 0u32..3, any::<u16>()).prop_map(move |(bi, batches, kind, pick)| {
+        let total: usize = batches.iter().map(|b| b.specs.len()).sum();
+        let index = (pick as usize * total >> 16) as u32;
+        let (target, errno) = match kind {
+            0 => ("stack-mmap", "ENOMEM"),
+            1 => ("clone", "EAGAIN"),
+            _ => ("clone", "ENOMEM"),
+        };
+        Case { build: builds[bi].to_string(), strace: true, fault: Some(Fault { target: target.into(), index, errno: errno.into() }), batches }
+    })
+}
+
+fn sp(ty: u8, panic: bool, disp: u8, inline: bool, cd: Delay, pd: Delay, buflen: u16, tag: u64) -> Spec {
+    Spec { ty, panic, disp, inline, child_delay: cd, parent_delay: pd, buflen, tag }
+}
+
+/// The four fixed small batches of the fault enumeration.
+fn fixed_batches() -> Vec<Batch> {
+    use Delay::*;
+    vec![
+        // F1: the minimal one
+        Batch { specs: vec![sp(2, false, DISP_JOIN, false, None, None, 16, 0x1234)] },
+        // F2: joins of different result types, one panic, one kept until the end
+        Batch {
+            specs: vec![
+                sp(0, false, DISP_JOIN, true, None, None, 0, 1),
+                sp(1, true, DISP_JOIN, false, Spin(20_000), None, 8, 2),
+                sp(4, false, DISP_KEEP_END, false, Sleep(200_000), None, 32, 3),
+                sp(8, false, DISP_JOIN, false, None, Spin(50_000), 100, 4),
+            ],
+        },
+        // F3: every disposition, over-aligned and 4 KiB results
+        Batch {
+            specs: vec![
+                sp(3, false, DISP_DROP_NOW, false, Spin(10_000), None, 4, 11),
+                sp(7, false, DISP_JOIN, false, None, Sleep(100_000), 64, 12),
+                sp(5, false, DISP_JOIN, true, Spin(100_000), None, 512, 13),
+                sp(6, true, DISP_DROP_LATER, false, None, Spin(100_000), 0, 14),
+                sp(2, false, DISP_DROP_FINISHING, true, Spin(30_000), Spin(40_000), 16, 15),
+                sp(1, false, DISP_KEEP_END, false, None, None, 1, 16),
+            ],
+        },
+        // F4: eight threads live at the same time, all joined
+        Batch { specs: (0..8).map(|k| sp((k % 9) as u8, k == 5, DISP_JOIN, false, Sleep(300_000), None, 24, 100 + k as u64)).collect() },
+    ]
+}
+
+fn builds_for(ctx: &Ctx) -> Vec<&'static str> {
+    if ctx.thorough() {
+        MODES.to_vec()
+    } else {
+        // three of the six link modes, rotating with the seed (consecutive entries of MODES mix link mode and profile)
+        let s = (ctx.seed / 2) as usize;
+        (0..3).map(|k| MODES[(s + k) % 6]).collect()
+    }
+}
+
+// ------------------------------------------------------------------------------------------------
+// entry
+// ------------------------------------------------------------------------------------------------
+
+pub fn run(ctx: &Ctx) {
+    let c06 = ctx.prop == "C06";
+    let env = Env {
+        ctx,
+        c06,
+        startup_mmaps: RefCell::new(BTreeMap::new()),
+        threads: Cell::new(0),
+        batches: Cell::new(0),
+        probe_runs: Cell::new(0),
+        strace_runs: Cell::new(0),
+        max_alive: Cell::new(0),
+    };
+    let builds = builds_for(ctx);
+    let max_b = if ctx.thorough() { 10 } else { 5 };
+    if c06 {
+        ctx.run_prop_opts("release", ctx.cases(10, 500), 150, case_strategy(true, builds.clone(), false, max_b), |c| run_case(&env, c));
+        ctx.run_prop_opts("release-strace", ctx.cases(3, 60), 60, case_strategy(true, builds.clone(), true, 2), |c| run_case(&env, c));
+    } else {
+        ctx.run_prop_opts("join", ctx.cases(10, 500), 150, case_strategy(false, builds.clone(), false, max_b), |c| run_case(&env, c));
+        ctx.run_prop_opts("join-strace", ctx.cases(2, 40), 60, case_strategy(false, builds.clone(), true, 2), |c| run_case(&env, c));
+        // complete fault enumeration on the fixed batches: every stack mmap, every clone (x EAGAIN, ENOMEM)
+        if let Some(case) = ctx.replay_case::<Case>("fault") {
+            ctx.run_one("fault", &case, || run_case(&env, &case));
+        } else if !ctx.is_replay() {
+            let fixed = fixed_batches();
+            let mut all = Vec::new();
+            for build in &builds {
+                for b in &fixed {
+                    for idx in 0..b.specs.len() as u32 {
+                        for (t, e) in [("stack-mmap", "ENOMEM"), ("clone", "EAGAIN"), ("clone", "ENOMEM")] {
+                            all.push(Case { build: build.to_string(), strace: true, fault: Some(Fault { target: t.into(), index: idx, errno: e.into() }), batches: vec![b.clone()] });
+                        }
+                    }
+                }
+            }
+            let mut complete = true;
+            for (k, case) in all.iter().enumerate() {
+                if k as u32 % ctx.nworkers != ctx.worker {
+                    continue;
+                }
+                if !ctx.run_one("fault", case, || run_case(&env, case)) {
+                    complete = false;
+                    break;
+                }
+            }
+            if complete {
+                ctx.note_exhaustive(format!("every stack mmap and every clone (EAGAIN, ENOMEM) of 4 fixed batches (1, 4, 6, 8 threads) x {} builds failed once by strace injection: {} cases", builds.len(), all.len()));
+            }
+        }
+        if ctx.thorough() {
+            ctx.run_prop_opts("fault-rand", ctx.cases(0, 60), 60, fault_case_strategy(builds.clone()), |c| run_case(&env, c));
+        }
+    }
+    ctx.extra("threads_created", serde_json::json!(env.threads.get()));
+    ctx.extra("batches_run", serde_json::json!(env.batches.get()));
+    ctx.extra("probe_runs", serde_json::json!(env.probe_runs.get()));
+    ctx.extra("probe_runs_under_strace", serde_json::json!(env.strace_runs.get()));
+    ctx.extra("max_threads_live_at_once", serde_json::json!(env.max_alive.get()));
+    ctx.extra("builds", serde_json::json!(builds));
+}
